@@ -11,13 +11,17 @@ Local Open Scope N_scope.
 Open Scope bool_scope.
 
 (** compact constructors used by the case files *)
-Definition H (k ht body : N) : header := {| h_hash := k; h_height := ht; h_body := body |}.
+Definition HS (k ht body nk ns : N) : header := {| h_hash := k; h_height := ht; h_body := body; h_keys := nk; h_sigs := ns |}.
+Definition H (k ht body : N) : header := HS k ht body 1 1.   (* solo chains: one key, one signature *)
+Definition BH (hd : header) (txs : list (N * N)) : block :=
+  {| b_hdr := hd; b_txs := map (fun p => {| t_hash := fst p; t_body := snd p |}) txs |}.
 Definition B (k ht body : N) (txs : list (N * N)) : block :=
   {| b_hdr := H k ht body; b_txs := map (fun p => {| t_hash := fst p; t_body := snd p |}) txs |}.
 (* a block whose n transactions have consecutive hash ids hb, hb+1, ... and digests db, db+1, ... *)
 Fixpoint gen_pairs (n : nat) (hb db : N) : list (N * N) :=
   match n with O => [] | S m => (hb, db) :: gen_pairs m (hb + 1) (db + 1) end.
 Definition BG (k ht body hb db n : N) : block := B k ht body (gen_pairs (N.to_nat n) hb db).
+Definition BGH (hd : header) (hb db n : N) : block := BH hd (gen_pairs (N.to_nat n) hb db).
 Definition T (k body : N) : tx := {| t_hash := k; t_body := body |}.
 
 (** operations with the status the implementation reported *)
@@ -39,6 +43,7 @@ Inductive qobs :=
      (blk : option block)            (* GetBlockByHash *)
      (hdr : option header)           (* GetHeaderByHash *)
      (hc : bool)                     (* headerCache holds it *)
+| QR (k : hash) (r : option (N * N))    (* GetRawHeaderByHash: height, digest of the payload *)
 | QT (k : hash) (r : option (tx * N)).  (* GetTransaction *)
 
 Inductive ckpt :=
@@ -54,7 +59,8 @@ Inductive case :=
 
 (** equality tests *)
 Definition header_eqb (a b : header) : bool :=
-  (h_hash a =? h_hash b) && (h_height a =? h_height b) && (h_body a =? h_body b).
+  (h_hash a =? h_hash b) && (h_height a =? h_height b) && (h_body a =? h_body b)
+  && (h_keys a =? h_keys b) && (h_sigs a =? h_sigs b).
 Definition tx_eqb (a b : tx) : bool := (t_hash a =? t_hash b) && (t_body a =? t_body b).
 Fixpoint list_eqb {A} (e : A -> A -> bool) (x y : list A) : bool :=
   match x, y with
@@ -86,6 +92,7 @@ Definition q_ok (cb : list hash) (ct : list (hash * hash)) (s : store) (q : qobs
       opt_eqb block_eqb (get_block (mem cb) (memr ct) s k) blk
       && opt_eqb header_eqb (get_header_by_hash (mem cb) s k) hdr
       && Bool.eqb (match lookup k (s_hdrcache s) with Some _ => true | None => false end) hc
+  | QR k r => opt_eqb (fun x y => (fst x =? fst y) && (snd x =? snd y)) (get_raw_header_by_hash (mem cb) s k) r
   | QT k r =>
       opt_eqb (fun x y => tx_eqb (fst x) (fst y) && (snd x =? snd y)) (get_transaction (memr ct) s k) r
   end.
